@@ -660,7 +660,8 @@ def run(ctx):
     rng = ctx.rng
     quick = ctx.tier == 'quick'
     ctx.cov['trusted_base'] = vlib.BASE_TRUSTED + [
-        "tools/gen_converter.py anchors (regular expressions over converter.rs, switch.rs, shapes.rs, svgtree/mod.rs, svgtree/parse.rs)",
+        "tools/gen_converter.py anchors (regular expressions over converter.rs, switch.rs, shapes.rs, mask.rs, clippath.rs, filter.rs, svgtree/mod.rs, svgtree/parse.rs) "
+        "and its function splitter / call-site patterns over crates/usvg/src/parser/*.rs (table call_sites)",
         "leaf converters (convert_path styling, image, text, use_node, filter resolution, linked masks / clip paths), roxmltree, simplecss: abstract in "
         "the model, exercised by the correspondence and the insertion oracle only; what mask::convert / clippath::convert do to the cache is modelled "
         "(Model/ConvCache.v over mask_steps / clip_steps) and compared with the real ids by cache-reg",
@@ -839,12 +840,17 @@ def run(ctx):
               '<mask id="mC" maskContentUnits="objectBoundingBox"><rect width="1" height="1" fill="white"/></mask>'
               '<clipPath id="cO" clipPathUnits="objectBoundingBox"><rect width="1" height="1"/></clipPath>'
               '<clipPath id="cU"><rect width="500" height="500"/></clipPath>'
+              # definitions that link another one: mask -> mask, clip-path on clipPath (cacheable only when the whole chain is)
+              '<mask id="mL" mask="url(#mO)"><rect width="500" height="500" fill="white"/></mask>'
+              '<mask id="mLU" maskUnits="userSpaceOnUse" x="0" y="0" width="500" height="500" mask="url(#mU)"><rect width="500" height="500" fill="white"/></mask>'
+              '<clipPath id="cL" clip-path="url(#cO)"><rect width="500" height="500"/></clipPath>'
+              '<clipPath id="cLU" clip-path="url(#cU)"><rect width="500" height="500"/></clipPath>'
               '<filter id="fOK" filterUnits="userSpaceOnUse" x="0" y="0" width="300" height="300"><feFlood flood-color="green" flood-opacity="0.5"/></filter>'
               '<linearGradient id="lgX"><stop offset="0" stop-color="red"/></linearGradient>')
 
     def reg_shape():
         a = sk.elem(3)
-        a.update(clip=rng.choice([None] * 3 + ['cO', 'cO', 'cU', 'lgX', 'missing']), mask=rng.choice([None] * 2 + ['mO', 'mO', 'mU', 'mC', 'lgX']),
+        a.update(clip=rng.choice([None] * 3 + ['cO', 'cO', 'cU', 'cL', 'cLU', 'lgX', 'missing']), mask=rng.choice([None] * 2 + ['mO', 'mO', 'mU', 'mC', 'mL', 'mLU', 'lgX']),
                  filter=rng.choice([None] * 3 + ['none', 'none', 'fOK', 'missing']), valid=rng.below(5) < 3,
                  ts=rng.choice(['', '', '', 'translate(3 4)', 'scale(0)']), cond=rng.choice([None] * 6 + ['ext']))
         return a
@@ -857,11 +863,13 @@ def run(ctx):
             if rng.below(4) == 0:
                 a['tag'] = 'g'
                 a['children'] = [reg_shape() for _ in range(rng.below(4))]
-                for ch in a['children']:
-                    # an element without content that is kept for its filter has no object bounding box: not inside a group
-                    # (the instance's bbox rule is "has children")
-                    if ch['filter'] == 'fOK':
-                        ch['filter'] = rng.choice([None, 'none', 'missing'])
+                # nested groups, empty groups and content-less elements kept for their filter: the instance's bbox rule is
+                # "the subtree contains a leaf"
+                if rng.below(3) == 0:
+                    g2 = reg_shape()
+                    g2['tag'] = 'g'
+                    g2['children'] = [reg_shape() for _ in range(rng.below(3))]
+                    a['children'].insert(rng.below(len(a['children']) + 1), g2)
             kids.append(a)
         rdocs.append((kids, '<svg %s width="200" height="200">%s%s</svg>' % (NS, DEFS_C, ''.join(skel_xml(k) for k in kids))))
     # fixed patterns: a definition that is already registered meets an element WITHOUT a bounding box (empty group, zero-size shape
@@ -871,7 +879,7 @@ def run(ctx):
         a.update(tag=tag, valid=valid, clip=clip, mask=mask, filter=flt, ts='', cond=None, display_none=False, opacity=None, blend=False, isolate=False,
                  children=[])
         return a
-    for clip, mask in (('cO', None), (None, 'mO'), ('cO', 'mC'), ('cU', 'mU'), ('cO', 'mO')):
+    for clip, mask in (('cO', None), (None, 'mO'), ('cO', 'mC'), ('cU', 'mU'), ('cO', 'mO'), ('cL', 'mL'), ('cLU', 'mLU'), ('cL', 'mO'), ('cO', 'mL')):
         for mid in (fixed('g', True, clip, mask, None), fixed('g', True, clip, mask, 'none'), fixed('rect', False, clip, mask, 'none'),
                     fixed('circle', False, clip, mask, 'missing'), fixed('path', False, clip, mask, 'fOK')):
             sk.n = 0
@@ -899,8 +907,10 @@ def run(ctx):
     if ritems:
         body = ("From Coq Require Import String.\nLocal Open Scope Q_scope.\nLocal Open Scope string_scope.\n"
                 "Definition st0 : sim_state := {| ss_in_clip := false; ss_valid_links := [\"fOK\"] |}.\n"
-                "Definition clips : defs_t := [(\"cO\", clip_obb \"cO\"); (\"cU\", clip_usou \"cU\"); (\"lgX\", not_a_def \"lgX\")].\n"
-                "Definition masks : defs_t := [(\"mO\", mask_obb \"mO\"); (\"mU\", mask_usou \"mU\"); (\"mC\", mask_cobb \"mC\"); (\"lgX\", not_a_def \"lgX\")].\n"
+                "Definition clips : defs_t := [(\"cO\", clip_obb \"cO\"); (\"cU\", clip_usou \"cU\"); (\"lgX\", not_a_def \"lgX\"); "
+                "(\"cL\", with_link (clip_usou \"cL\") \"cO\" false); (\"cLU\", with_link (clip_usou \"cLU\") \"cU\" true)].\n"
+                "Definition masks : defs_t := [(\"mO\", mask_obb \"mO\"); (\"mU\", mask_usou \"mU\"); (\"mC\", mask_cobb \"mC\"); (\"lgX\", not_a_def \"lgX\"); "
+                "(\"mL\", with_link (mask_obb \"mL\") \"mO\" false); (\"mLU\", with_link (mask_usou \"mLU\") \"mU\" true)].\n"
                 "Definition cases : list (nodes * list onode) := [\n%s\n].\n"
                 "Eval vm_compute in (bad_indices (fun p => let r := simc_children fmt9 clips masks (fst p) false false st0 empty_cache root_group in "
                 "onodes_eqb (og_ch (snd r)) (snd p)) cases).\n" % ";\n".join(ritems))
